@@ -16,9 +16,18 @@ Reading of the statement in the model
   kernel-checked witness of the fixed defect C16-F1.
 * `hasFatal cfg = false` : no request makes an actor raise a non-`forml.AnyError` exception — that is outside the
   property's fault class (unsupported encoding, unknown application, missing features) and does stop a pool.
+* `Config.reset = .always` is `pyfunc.Expression.__call__` as it exists (`finally: <every fork>.reset()`): what a pool
+  worker carries from one task to the next (`Exec.carry`: the replica deque of its long-lived `Expression`) is empty
+  whenever a task starts, so the result a worker enqueues is `runModel` — the property's `f inst payload` — whatever
+  that worker served before (`C16_worker_history_independent`, `C16_worker_clean`, `C16_finish_exact`).  The other
+  reset policies are kept for the kernel-checked witnesses that the discipline is needed
+  (`C16_worker_reset_counterexample`, `C16_reset_counterexample`): a request refused INSIDE a forking pipeline would
+  otherwise hand its data / its error to the next request served by the same worker.
 -/
 import ForML.Lemmas.C16
 import ForML.Lemmas.C16Term
+import ForML.Model.ServingCold
+import ForML.Model.ServingGateway
 
 namespace ForML.Serving
 
@@ -50,7 +59,8 @@ the keys are distinct and all below the counter (ids are never reused); every ca
 once; and every answer is the outcome of the caller's own payload on the instance its application selected
 (or its own platform error) — except for the two refusals the code can produce outside the property's reach:
 "application not found" through the unsynchronised descriptor cache (only when `locked = false`) and
-"executor not running" (only when some request is fatal). -/
+"executor not running" (only when some request is fatal); with a reset policy other than the one of the code that exists
+nothing is claimed about the content of an answer (`C16_reset_counterexample`). -/
 theorem C16_correlation (cfg : Config) (sched : List Step) (s : State) (h : run cfg init sched = some s) :
     (∀ i, (inflight (s.execs i)).Nodup ∧ (keys (s.execs i)).Nodup
         ∧ (∀ id, id ∈ inflight (s.execs i) ↔ id ∈ keys (s.execs i))
@@ -58,7 +68,8 @@ theorem C16_correlation (cfg : Config) (sched : List Step) (s : State) (h : run 
     ∧ (∀ c, nAnswers s c ≤ 1)
     ∧ (∀ c o, (c, o) ∈ s.answers → o = expected cfg c
         ∨ (o = .error .missingApp ∧ cfg.locked = false)
-        ∨ (o = .error .notRunning ∧ hasFatal cfg = true)) := by
+        ∨ (o = .error .notRunning ∧ hasFatal cfg = true)
+        ∨ cfg.reset ≠ .always) := by
   have inv := Inv.init.run sched h
   refine ⟨fun i => ⟨(inv.e i).fl_nodup, (inv.e i).keys_nodup, (inv.e i).fl_keys, (inv.e i).keys_lt⟩, ?_, inv.c.ans_ok⟩
   intro c
@@ -68,20 +79,21 @@ theorem C16_correlation (cfg : Config) (sched : List Step) (s : State) (h : run 
 a caller is answered is the outcome computed from its own payload by the instance its application selected (or
 its own platform-level error). -/
 def C16_exact_full : Prop :=
-  ∀ (cfg : Config) (sched : List Step) (s : State), cfg.locked = true → hasFatal cfg = false →
+  ∀ (cfg : Config) (sched : List Step) (s : State), cfg.locked = true → cfg.reset = .always → hasFatal cfg = false →
     run cfg init sched = some s → ∀ c o, (c, o) ∈ s.answers → o = expected cfg c
 
 theorem C16_exact : C16_exact_full := by
-  intro cfg sched s hl hf h c o hm
-  rcases (C16_correlation cfg sched s h).2.2 c o hm with e | ⟨_, e⟩ | ⟨_, e⟩
+  intro cfg sched s hl hr hf h c o hm
+  rcases (C16_correlation cfg sched s h).2.2 c o hm with e | ⟨_, e⟩ | ⟨_, e⟩ | e
   · exact e
   · simp [hl] at e
   · simp [hf] at e
+  · exact absurd hr e
 
 /-- The same statement without the descriptor lock, i.e. for `_get_descriptor` as it was before 710a92e. -/
 def C16_exact_unlocked_full : Prop :=
-  ∀ (cfg : Config) (sched : List Step) (s : State), hasFatal cfg = false → run cfg init sched = some s →
-    ∀ c o, (c, o) ∈ s.answers → o = expected cfg c
+  ∀ (cfg : Config) (sched : List Step) (s : State), cfg.reset = .always → hasFatal cfg = false →
+    run cfg init sched = some s → ∀ c o, (c, o) ∈ s.answers → o = expected cfg c
 
 /-- D17: two first requests for the same (known) application, `_get_descriptor` unsynchronised. -/
 def raceCfg : Config :=
@@ -101,7 +113,7 @@ theorem C16_descriptor_race_counterexample : ¬ C16_exact_unlocked_full := by
     have hans : s.answers = [(1, .error .missingApp)] := by
       have : (run raceCfg init raceSched).map (·.answers) = some [(1, .error .missingApp)] := by decide
       rw [hr] at this; simpa using this
-    have := h raceCfg raceSched s (by decide) hr 1 (.error .missingApp) (by simp [hans])
+    have := h raceCfg raceSched s (by decide) (by decide) hr 1 (.error .missingApp) (by simp [hans])
     exact absurd this (by decide)
 
 /-- the same interleaving is not a schedule of the code that exists: thread 1 cannot pass the check while
@@ -175,13 +187,14 @@ after **any** schedule, some continuation (every one of them is finite by `C16_t
 where nothing is left to do, and there every caller that had arrived has been answered exactly once, with the
 outcome computed from its own payload by the instance its application selected (or its own platform error). -/
 def C16_exactly_once_full : Prop :=
-  ∀ (cfg : Config) (sched : List Step) (s : State), cfg.locked = true → hasFatal cfg = false → 1 ≤ cfg.workers →
+  ∀ (cfg : Config) (sched : List Step) (s : State), cfg.locked = true → cfg.reset = .always → hasFatal cfg = false →
+    1 ≤ cfg.workers →
     run cfg init sched = some s →
     ∃ ext s', run cfg init (sched ++ ext) = some s' ∧ stuck cfg s' = true ∧
       ∀ c, s.phase c ≠ .fresh → nAnswers s' c = 1 ∧ (c, expected cfg c) ∈ s'.answers
 
 theorem C16_exactly_once : C16_exactly_once_full := by
-  intro cfg sched s hl hf hw h
+  intro cfg sched s hl hrs hf hw h
   have hI := Inv.init.run sched h
   obtain ⟨ext, s', hr, hst⟩ := exists_completion (cfg := cfg) _ s hI (Nat.le_refl _)
   have hrun : run cfg init (sched ++ ext) = some s' := by rw [run_append, h]; exact hr
@@ -196,7 +209,7 @@ theorem C16_exactly_once : C16_exactly_once_full := by
   obtain ⟨a, ha⟩ := List.exists_mem_of_length_pos hpos
   obtain ⟨ham, hac⟩ := List.mem_filter.1 ha
   have hac' : a.1 = c := by simpa using hac
-  have := C16_exact cfg (sched ++ ext) s' hl hf hrun a.1 a.2 ham
+  have := C16_exact cfg (sched ++ ext) s' hl hrs hf hrun a.1 a.2 ham
   rw [hac'] at this
   rw [← this, ← hac']
   exact ham
@@ -210,7 +223,8 @@ once, only with the outcome the property prescribes for it in `cfg`, and exactly
 is complete. -/
 theorem C16_isolation (cfg cfg' : Config) (c : Nat)
     (hsame : ∀ d, d ≠ c → spec cfg' d = spec cfg d) (hinv : cfg'.inventory = cfg.inventory)
-    (hsel : cfg'.select = cfg.select) (hl : cfg'.locked = true) (hf : hasFatal cfg' = false)
+    (hsel : cfg'.select = cfg.select) (hfan : cfg'.fanout = cfg.fanout) (hl : cfg'.locked = true)
+    (hr : cfg'.reset = .always) (hf : hasFatal cfg' = false)
     (hw : 1 ≤ cfg'.workers) (sched : List Step) (s : State) (h : run cfg' init sched = some s) :
     ∀ d, d ≠ c →
       (∀ o, (d, o) ∈ s.answers → o = expected cfg d) ∧ nAnswers s d ≤ 1
@@ -218,32 +232,406 @@ theorem C16_isolation (cfg cfg' : Config) (c : Nat)
   intro d hd
   refine ⟨fun o hm => ?_, (C16_correlation cfg' sched s h).2.1 d,
     fun hst hp => C16_no_loss_partial cfg' sched s hw hf h hst d hp⟩
-  have := C16_exact cfg' sched s hl hf h d o hm
+  have := C16_exact cfg' sched s hl hr hf h d o hm
   rw [this]
-  simp [expected, finalOf, encode, entryOf, hsame d hd, hinv, hsel]
+  simp only [expected, runInst, entryOf, hsame d hd, hinv, hsel, hfan]
+  split
+  · split
+    · rfl
+    · cases runModel (cfg.fanout (cfg.select (spec cfg d).app)) (cfg.select (spec cfg d).app) (spec cfg d).entry <;>
+        simp [finalOf, encode, hsame d hd]
+  · rfl
+
+/-! ### what a pool worker carries from one request to the next -/
+
+/-- **A worker's answers do not depend on its history.**  A pool worker owns one `pyfunc.Expression` for its whole
+life; with the reset of the code that exists (`finally: <every fork>.reset()` after every call) the outcomes of ANY
+sequence of requests it serves — healthy ones, requests refused at the head, requests refused by any branch after the
+fork — are, one by one, `runModel n inst e`: a function of the instance and of that request alone. -/
+theorem C16_worker_history_independent (inst n : Nat) (hist : List Entry) :
+    (serveAll .always inst n {} hist).1 = hist.map (runModel n inst) :=
+  (serveAll_always inst n hist {} rfl).1
+
+/-- the same in the words of the property: after whatever history, the next request `e` is answered `f inst payload` -/
+theorem C16_worker_after_any_history (inst n : Nat) (hist : List Entry) (e : Entry) :
+    (serveAll .always inst n (serveAll .always inst n {} hist).2 [e]).1 = [runModel n inst e] := by
+  have h := (serveAll_always inst n hist {} rfl).2
+  exact (serveAll_always inst n [e] _ h).1
+
+/-- The statement without the reset discipline: every reset policy would do. -/
+def C16_worker_anyreset_full : Prop :=
+  ∀ (pol : ResetPolicy) (inst n : Nat) (hist : List Entry),
+    (serveAll pol inst n {} hist).1 = hist.map (runModel n inst)
+
+/-- It holds for every policy as long as no request is refused by a branch other than the last one of the fan-out
+(refusals at the head — missing features — and in the last branch leave no replica behind) … -/
+theorem C16_worker_anyreset_partial (pol : ResetPolicy) (inst n : Nat) (hist : List Entry)
+    (h : tailRefusalsOnly n hist) : (serveAll pol inst n {} hist).1 = hist.map (runModel n inst) :=
+  (serveAll_anyreset pol inst n hist {} rfl h).1
+
+/-- … and for every policy on a linear pipeline (no fork, no replicas). -/
+theorem C16_worker_anyreset_linear (pol : ResetPolicy) (inst n : Nat) (hn : n ≤ 1) (hist : List Entry) :
+    (serveAll pol inst n {} hist).1 = hist.map (runModel n inst) := by
+  have key : ∀ (hist : List Entry) (cr : Carry), cr.queue = [] →
+      (serveAll pol inst n cr hist).1 = hist.map (runModel n inst) ∧ (serveAll pol inst n cr hist).2.queue = [] := by
+    intro hist
+    induction hist with
+    | nil => intro cr h; exact ⟨rfl, h⟩
+    | cons e es ih =>
+      intro cr h
+      have hq : (workerCall pol inst n cr e).2.queue = [] := by
+        simp only [workerCall, h]
+        split
+        · rfl
+        · rw [evalTerm_clean_residue]; split
+          · rw [if_neg (by omega)]
+          · rfl
+      have := ih _ hq
+      simp only [serveAll, List.map_cons]
+      exact ⟨by rw [workerCall_clean _ _ _ _ _ h, this.1], this.2⟩
+  exact (key hist {} rfl).1
+
+/-- a healthy request, a request refused by the first branch of a two-way fan-out, a healthy request -/
+def staleHist : List Entry := [⟨.ok, 1⟩, ⟨.refused 0, 2⟩, ⟨.ok, 3⟩]
+
+/-- **The reset discipline is needed.**  A reset that only works in a worker's first call: the replica queued by the
+refused request 2 survives, the healthy request 3 is handed request 2's data by the first branch and receives request
+2's error. -/
+theorem C16_worker_anyreset_counterexample : ¬ C16_worker_anyreset_full := by
+  intro h
+  exact absurd (h .firstCallOnly 0 2 staleHist) (by decide)
+
+/-- what exactly happens there, and with a three-way fan-out (the two next requests are hit; a refusal in the middle
+branch leaves a response mixed from two requests, and the mix-up then goes on for ever) -/
+example : (serveAll .firstCallOnly 0 2 {} staleHist).1
+    = [.value 0 1, .error (.invalid 2 0), .error (.invalid 2 0)] := by decide
+example : (serveAll .firstCallOnly 0 3 {} [⟨.ok, 1⟩, ⟨.refused 0, 2⟩, ⟨.ok, 3⟩, ⟨.ok, 4⟩, ⟨.ok, 5⟩]).1
+    = [.value 0 1, .error (.invalid 2 0), .error (.invalid 2 0), .error (.invalid 2 0), .value 0 5] := by decide
+example : (serveAll .firstCallOnly 0 3 {} [⟨.ok, 1⟩, ⟨.refused 1, 2⟩, ⟨.ok, 3⟩, ⟨.ok, 4⟩]).1
+    = [.value 0 1, .error (.invalid 2 1), .mixed 0 [2, 3, 3], .mixed 0 [3, 4, 4]] := by decide
+/-- `else` instead of `finally` (reset after successful calls only) fails the same way, without any warm-up -/
+example : (serveAll .onSuccessOnly 0 2 {} [⟨.refused 0, 2⟩, ⟨.ok, 3⟩]).1
+    = [.error (.invalid 2 0), .error (.invalid 2 0)] := by decide
+/-- the same histories under the code that exists -/
+example : (serveAll .always 0 3 {} [⟨.ok, 1⟩, ⟨.refused 1, 2⟩, ⟨.ok, 3⟩, ⟨.ok, 4⟩]).1
+    = [.value 0 1, .error (.invalid 2 1), .value 0 3, .value 0 4] := by decide
+
+/-- **In the transition system**: under every schedule of the code that exists no worker of any executor carries a
+replica from one task to the next … -/
+theorem C16_worker_clean (cfg : Config) (sched : List Step) (s : State) (hr : cfg.reset = .always)
+    (h : run cfg init sched = some s) : ∀ i w, ((s.execs i).carry w).queue = [] :=
+  (Inv.init.run sched h).w hr
+
+/-- … hence whichever worker finishes a task, after whatever it served before, the result it puts on the result queue
+is `f inst payload` of that task's entry. -/
+theorem C16_finish_exact (cfg : Config) (sched : List Step) (s s' : State) (i w : Nat) (hr : cfg.reset = .always)
+    (h : run cfg init sched = some s) (hs : step cfg s (.finish i w) = some s') :
+    ∃ t, (s.execs i).held.lookup w = some t
+      ∧ (s'.execs i).resultQ = (s.execs i).resultQ ++ [⟨t.id, runInst cfg i t.entry⟩] := by
+  obtain ⟨t, ht, rfl⟩ := step_finish hs
+  refine ⟨t, ht, ?_⟩
+  simp only [upd_same]
+  rw [workerCall_clean _ _ _ _ _ (C16_worker_clean cfg sched s hr h i w)]
+  rfl
+
+/-- `C16_exact_full` without the hypothesis on the reset discipline. -/
+def C16_exact_anyreset_full : Prop :=
+  ∀ (cfg : Config) (sched : List Step) (s : State), cfg.locked = true → hasFatal cfg = false →
+    run cfg init sched = some s → ∀ c o, (c, o) ∈ s.answers → o = expected cfg c
+
+/-- one application whose pipeline fans out into two branches, one worker, a reset that works in a worker's first
+call only; callers 0 and 2 healthy, caller 1 refused by the first branch -/
+def staleCfg : Config :=
+  { callers := [⟨0, false, false, ⟨.ok, 1⟩⟩, ⟨0, false, false, ⟨.refused 0, 2⟩⟩, ⟨0, false, false, ⟨.ok, 3⟩⟩],
+    inventory := [0], select := fun a => a, workers := 1, locked := true, fanout := fun _ => 2,
+    reset := .firstCallOnly }
+
+/-- the three requests one after the other (no concurrency needed) -/
+def staleSched : List Step :=
+  [.arrive 0, .desc 0, .desc 0, .desc 0, .desc 0, .desc 0, .submit 0, .take 0 0, .finish 0 0, .deliver 0, .respond 0,
+   .arrive 1, .desc 1, .submit 1, .take 0 0, .finish 0 0, .deliver 0,
+   .arrive 2, .desc 2, .submit 2, .take 0 0, .finish 0 0, .deliver 0]
+
+theorem C16_reset_counterexample : ¬ C16_exact_anyreset_full := by
+  intro h
+  cases hr : run staleCfg init staleSched with
+  | none => exact absurd hr (by decide)
+  | some s =>
+    have hans : s.answers = [(2, .error (.invalid 2 0)), (1, .error (.invalid 2 0)), (0, .value 0 1)] := by
+      have : (run staleCfg init staleSched).map (·.answers)
+          = some [(2, .error (.invalid 2 0)), (1, .error (.invalid 2 0)), (0, .value 0 1)] := by decide
+      rw [hr] at this; simpa using this
+    have := h staleCfg staleSched s (by decide) (by decide) hr 2 (.error (.invalid 2 0)) (by simp [hans])
+    exact absurd this (by decide)
+
+/-- the same schedule under the code that exists: the healthy caller 2 gets its own outcome -/
+example : (run { staleCfg with reset := .always } init (staleSched ++ [.respond 2])).map (·.answers)
+    = some [(2, .value 0 3), (1, .error (.invalid 2 0)), (0, .value 0 1)] := by decide
+
+/-! ### the event-loop thread and an executor created while another one is busy (finding C16-F2) -/
+
+theorem baseSteps_cons (a : CStep) (as : List CStep) : baseSteps (a :: as) = baseSteps [a] ++ baseSteps as := by
+  cases a <;> rfl
+
+theorem lateWindow_false (cfg : Config) (s : CState) (c : Nat)
+    (h : (s.base.execs (cfg.select (spec cfg c).app)).stopped = false) : lateWindow cfg s c = false := by
+  simp [lateWindow, h]
+
+theorem lateBlocked_false (cfg : Config) (s : CState) (a : Step) (h : ∀ i, (s.base.execs i).stopped = false) :
+    lateBlocked cfg s a = false := by
+  cases a <;> simp [lateBlocked, lateWindow_false cfg s _ (h _)]
+
+/-- one step of the engine, no fatal request in the configuration: the underlying state stays reachable (the step is a
+step of the underlying system or leaves it alone; the late-acceptance window does not exist because no pool ever
+stops), and without the hazard the loop thread is not lost -/
+theorem cstep_inv (h : Bool) (cfg : Config) (hf : hasFatal cfg = false) (s s1 : CState) (a : CStep)
+    (hI : Inv cfg s.base) (hc : cstep h cfg s a = some s1) :
+    Inv cfg s1.base ∧ run cfg s.base (baseSteps [a]) = some s1.base ∧ (h = false → s1.blocked = s.blocked) := by
+  have hns : ∀ i, (s.base.execs i).stopped = false := by
+    intro i
+    cases hs : (s.base.execs i).stopped with
+    | false => rfl
+    | true => have := hI.c.stop_fatal i hs; simp [hf] at this
+  cases a with
+  | step a =>
+    simp only [cstep, lateBlocked_false cfg s a hns] at hc
+    split at hc
+    · cases hc
+    · cases hb : step cfg s.base a with
+      | none => simp [hb] at hc
+      | some b =>
+        simp only [hb, Bool.false_eq_true, if_false, Option.some.injEq] at hc
+        subst hc
+        exact ⟨hI.step a hb, by simp [baseSteps, run, hb], fun _ => rfl⟩
+  | wedge c =>
+    simp only [cstep] at hc
+    split at hc
+    · rename_i hcond
+      simp only [Option.some.injEq] at hc
+      subst hc
+      refine ⟨hI, rfl, fun hh => ?_⟩
+      subst hh; simp at hcond
+    · cases hc
+  | exit i =>
+    simp only [cstep] at hc
+    split at hc
+    · simp only [Option.some.injEq] at hc; subst hc; exact ⟨hI, rfl, fun _ => rfl⟩
+    · cases hc
+  | lateSubmit c =>
+    simp only [cstep] at hc
+    split at hc
+    · rename_i hcond
+      rw [lateWindow_false cfg s c (hns _)] at hcond
+      simp at hcond
+    · cases hc
+
+/-- every schedule of the engine (no fatal request) performs a schedule of the underlying transition system -/
+theorem crun_inv (h : Bool) (cfg : Config) (hf : hasFatal cfg = false) : ∀ (sched : List CStep) (s s' : CState),
+    Inv cfg s.base → crun h cfg s sched = some s' →
+    Inv cfg s'.base ∧ run cfg s.base (baseSteps sched) = some s'.base ∧ (h = false → s'.blocked = s.blocked) := by
+  intro sched
+  induction sched with
+  | nil => intro s s' hI hr; simp [crun] at hr; subst hr; exact ⟨hI, rfl, fun _ => rfl⟩
+  | cons a as ih =>
+    intro s s' hI hr
+    simp only [crun] at hr
+    cases hc : cstep h cfg s a with
+    | none => simp [hc] at hr
+    | some s1 =>
+      rw [hc] at hr
+      obtain ⟨hI1, hr1, hb1⟩ := cstep_inv h cfg hf s s1 a hI hc
+      obtain ⟨hI2, hr2, hb2⟩ := ih s1 s' hI1 hr
+      refine ⟨hI2, ?_, fun hh => by rw [hb2 hh, hb1 hh]⟩
+      rw [baseSteps_cons, run_append, hr1]
+      exact hr2
+
+/-- **Never crossed, never duplicated — with or without the hazard**: whatever the engine answers is the caller's own
+outcome, at most once (the loss of the loop thread only ever takes answers away). -/
+theorem C16_coldfork_exact (h : Bool) (cfg : Config) (sched : List CStep) (s : CState) (hl : cfg.locked = true)
+    (hr : cfg.reset = .always) (hf : hasFatal cfg = false) (hrun : crun h cfg cinit sched = some s) :
+    (∀ c o, (c, o) ∈ s.base.answers → o = expected cfg c) ∧ ∀ c, nAnswers s.base c ≤ 1 := by
+  have hb := (crun_inv h cfg hf sched cinit s Inv.init hrun).2.1
+  exact ⟨C16_exact cfg _ s.base hl hr hf hb, (C16_correlation cfg _ s.base hb).2.1⟩
+
+/-- "Exactly once" for the engine with its loop thread, whichever variant of the component loader. -/
+def C16_coldfork_full : Prop :=
+  ∀ (h : Bool) (cfg : Config) (sched : List CStep) (s : CState), cfg.locked = true → cfg.reset = .always →
+    hasFatal cfg = false → 1 ≤ cfg.workers → crun h cfg cinit sched = some s → cstuck h cfg s = true →
+    ∀ c, s.base.phase c ≠ .fresh → nAnswers s.base c = 1
+
+/-- It holds for the repaired loader (`hazard = false`: `forml` stays in `sys.modules`, nobody re-imports it). -/
+theorem C16_coldfork_partial (cfg : Config) (sched : List CStep) (s : CState)
+    (hf : hasFatal cfg = false) (hw : 1 ≤ cfg.workers) (hrun : crun false cfg cinit sched = some s)
+    (hst : cstuck false cfg s = true) : ∀ c, s.base.phase c ≠ .fresh → nAnswers s.base c = 1 := by
+  obtain ⟨hI, hb, hnb⟩ := crun_inv false cfg hf sched cinit s Inv.init hrun
+  have hnb : s.blocked = false := hnb rfl
+  have hns : ∀ i, (s.base.execs i).stopped = false := by
+    intro i
+    cases hs : (s.base.execs i).stopped with
+    | false => rfl
+    | true => have := hI.c.stop_fatal i hs; simp [hf] at this
+  have hstuck : stuck cfg s.base = true := by
+    simp only [stuck, enabled, List.isEmpty_iff, List.filter_eq_nil_iff]
+    intro a ha
+    simp only [cstuck, ccandidates, List.all_eq_true, List.mem_append, List.mem_map] at hst
+    have := hst (.step a) (Or.inl (Or.inl (Or.inl ⟨a, ha, rfl⟩)))
+    simp only [cstep, hnb, Bool.false_and, lateBlocked_false cfg s a hns] at this
+    cases hs : step cfg s.base a with
+    | none => simp
+    | some b => simp [hs] at this
+  exact C16_no_loss_partial cfg _ s.base hw hf hb hstuck
+
+/-- two applications over two instances, one worker each; both callers healthy -/
+def coldCfg : Config :=
+  { callers := [⟨0, false, false, ⟨.ok, 1⟩⟩, ⟨1, false, false, ⟨.ok, 2⟩⟩], inventory := [0, 1], select := fun a => a,
+    workers := 1, locked := true }
+
+/-- caller 0's task has been computed (its result waits for the executor thread of instance 0); caller 1 is the first
+request of application 1: the loop thread creates that executor while the other executor's thread imports `forml`. -/
+def coldSched : List CStep :=
+  [.step (.arrive 0), .step (.desc 0), .step (.desc 0), .step (.desc 0), .step (.desc 0), .step (.desc 0),
+   .step (.submit 0), .step (.take 0 0), .step (.finish 0 0),
+   .step (.arrive 1), .step (.desc 1), .wedge 1]
+
+/-- **Finding C16-F2**: with the component loader as it exists a legal schedule loses the event loop: nothing is enabled
+any more and neither the first caller of the new executor nor the caller whose result is ready is ever answered. -/
+theorem C16_coldfork_counterexample : ¬ C16_coldfork_full := by
+  intro h
+  cases hr : crun true coldCfg cinit coldSched with
+  | none => exact absurd hr (by decide)
+  | some s =>
+    have hobs : (cstuck true coldCfg s, s.base.phase 0, nAnswers s.base 0, nAnswers s.base 1)
+        = (true, .submitted 0 0, 0, 0) := by
+      have : (crun true coldCfg cinit coldSched).map
+          (fun s => (cstuck true coldCfg s, s.base.phase 0, nAnswers s.base 0, nAnswers s.base 1))
+          = some (true, .submitted 0 0, 0, 0) := by decide
+      rw [hr] at this; simpa using this
+    simp only [Prod.mk.injEq] at hobs
+    have := h true coldCfg coldSched s (by decide) (by decide) (by decide) (by decide) hr hobs.1 0 (by simp [hobs.2.1])
+    omega
+
+/-- the same list is not a schedule of the repaired loader (the hazardous step does not exist) … -/
+example : crun false coldCfg cinit coldSched = none := by decide
+/-- … and there the same requests end answered: caller 1 is submitted instead, everything is computed and delivered -/
+example : (crun false coldCfg cinit (coldSched.dropLast ++
+    [.step (.submit 1), .step (.deliver 0), .step (.respond 0), .step (.take 1 0), .step (.finish 1 0),
+     .step (.deliver 1), .step (.respond 1)])).map
+      (fun s => (cstuck false coldCfg s, s.base.answers)) = some (true, [(1, .value 1 2), (0, .value 0 1)]) := by
+  decide
+
+/-! ### accepting a task after the pool has stopped (outside the property's fault class) -/
+
+/-- A request dealt to a pool that has stopped is refused (`RuntimeError('Executor not running')`). -/
+def C16_late_refusal_full : Prop :=
+  ∀ (h : Bool) (cfg : Config) (sched : List CStep) (s : CState) (c : Nat), crun h cfg cinit sched = some s →
+    s.blocked = false → s.base.phase c = .resolved → (spec cfg c).badEncoding = false →
+    (s.base.execs (cfg.select (spec cfg c).app)).stopped = true →
+    ∃ s', cstep h cfg s (.step (.submit c)) = some s' ∧ (c, .error .notRunning) ∈ s'.base.answers
+
+/-- It is — once the executor thread has left its loop (`Executor.apply`: `if not self.is_alive(): raise`); the task
+cannot be accepted any more then. -/
+theorem C16_late_refusal_partial (h : Bool) (cfg : Config) (s : CState) (c : Nat) (hb : s.blocked = false)
+    (hp : s.base.phase c = .resolved) (he : (spec cfg c).badEncoding = false)
+    (hs : (s.base.execs (cfg.select (spec cfg c).app)).stopped = true)
+    (hx : s.exited.contains (cfg.select (spec cfg c).app) = true) :
+    (∃ s', cstep h cfg s (.step (.submit c)) = some s' ∧ (c, .error .notRunning) ∈ s'.base.answers)
+    ∧ cstep h cfg s (.lateSubmit c) = none := by
+  have hlw : lateWindow cfg s c = false := by
+    have hm : cfg.select (spec cfg c).app ∈ s.exited := by simpa using hx
+    simp [lateWindow, hm]
+  refine ⟨⟨{ s with base := answer s.base c (.error .notRunning) }, ?_, by simp [answer]⟩, by simp [cstep, hlw]⟩
+  simp [cstep, hb, lateBlocked, hlw, step, hp, he, hs]
+
+/-- the fatal request 0 has stopped the pool, the healthy caller 1 arrives afterwards, the executor thread has not
+noticed the stop yet -/
+def lateSched : List CStep :=
+  [.step (.arrive 0), .step (.desc 0), .step (.desc 0), .step (.desc 0), .step (.desc 0), .step (.desc 0),
+   .step (.submit 0), .step (.take 0 0), .step (.finish 0 0), .step (.arrive 1), .step (.desc 1)]
+
+/-- Before that (at most the one second of `results.get(timeout=1)`) the task is accepted although no worker will ever
+take it: the caller is neither answered nor refused.  Behaviour after a non-platform exception, outside the property's
+fault class; recorded. -/
+theorem C16_late_refusal_counterexample : ¬ C16_late_refusal_full := by
+  intro h
+  cases hr : crun true fatalCfg cinit lateSched with
+  | none => exact absurd hr (by decide)
+  | some s =>
+    have hobs : (s.blocked, s.base.phase 1, (s.base.execs 0).stopped, (cstep true fatalCfg s (.step (.submit 1))).isNone)
+        = (false, .resolved, true, true) := by
+      have : (crun true fatalCfg cinit lateSched).map
+          (fun s => (s.blocked, s.base.phase 1, (s.base.execs 0).stopped, (cstep true fatalCfg s (.step (.submit 1))).isNone))
+          = some (false, .resolved, true, true) := by decide
+      rw [hr] at this; simpa using this
+    simp only [Prod.mk.injEq] at hobs
+    obtain ⟨s', hs', _⟩ := h true fatalCfg lateSched s 1 hr hobs.1 hobs.2.1 (by decide) hobs.2.2.1
+    rw [hs'] at hobs
+    simp at hobs
+
+/-- what happens instead: the task is accepted, nothing is enabled any more, caller 1 has no answer -/
+example : (crun true fatalCfg cinit (lateSched ++ [.lateSubmit 1, .exit 0])).map
+    (fun s => (cstuck true fatalCfg s, s.base.phase 1, nAnswers s.base 1)) = some (true, .submitted 0 1, 0) := by decide
+/-- had the thread left its loop first, the caller would have been refused -/
+example : (crun true fatalCfg cinit (lateSched ++ [.exit 0, .step (.submit 1)])).map
+    (fun s => (cstuck true fatalCfg s, s.base.answers)) = some (true, [(1, .error .notRunning)]) := by decide
+
+/-! ### the REST gateway -/
+
+/-- the gateway adds nothing and hides nothing: two outcomes that differ give HTTP responses that differ -/
+theorem gateway_injective (o o' : Outcome) (h : gateway o = gateway o') : o = o' := by
+  have := congrArg HttpResponse.body h
+  simpa [gateway] using this
+
+/-- **Through the REST route**: under every schedule, the HTTP response a caller receives is the one of its own
+request — status 200 with the outcome of its own payload on the instance its application selected (and that instance in
+`x-forml-instance`), or the status of its own platform error (415 unsupported content type / no acceptable response
+encoding, 404 unknown application / missing features, 400 refused by the pipeline). -/
+theorem C16_gateway (cfg : Config) (sched : List Step) (s : State) (hl : cfg.locked = true) (hr : cfg.reset = .always)
+    (hf : hasFatal cfg = false) (h : run cfg init sched = some s) :
+    ∀ c o, (c, o) ∈ s.answers → gateway o = gateway (expected cfg c)
+      ∧ ((gateway o).status = 200 ↔ (expected cfg c).err? = none) := by
+  intro c o hm
+  have := C16_exact cfg sched s hl hr hf h c o hm
+  subst this
+  refine ⟨rfl, ?_⟩
+  cases he : expected cfg c with
+  | value i p => simp [gateway, httpStatus, Outcome.err?]
+  | mixed i ps => simp [gateway, httpStatus, Outcome.err?]
+  | error e => cases e <;> simp [gateway, httpStatus, Outcome.err?]
+
+example : (gateway (.value 3 7)).status = 200 ∧ (gateway (.value 3 7)).served = some 3
+    ∧ (gateway (.error (.invalid 7 1))).status = 400 ∧ (gateway (.error .missingApp)).status = 404
+    ∧ (gateway (.error .missingFeatures)).status = 404 ∧ (gateway (.error .unsupported)).status = 415 := by decide
 
 /-! ### non-vacuity (tests on concrete objects, not part of the claim) -/
 
-/-- six callers over two applications / instances and an unknown one: healthy, healthy, undecodable content type,
-missing column, unknown application, no acceptable response encoding; two workers; the code that exists -/
+/-- eight callers over two applications / instances (pipelines fanning out into 2 and 3 branches) and an unknown
+application: healthy, healthy, undecodable content type, missing column, unknown application, no acceptable response
+encoding, refused by branch 1 of 3, refused by branch 0 of 2; two workers; the code that exists -/
 def demoCfg : Config :=
   { callers := [⟨0, false, false, ⟨.ok, 5⟩⟩, ⟨1, false, false, ⟨.ok, 6⟩⟩, ⟨0, true, false, ⟨.ok, 7⟩⟩,
-                ⟨1, false, false, ⟨.missingColumn, 8⟩⟩, ⟨9, false, false, ⟨.ok, 9⟩⟩, ⟨0, false, true, ⟨.ok, 10⟩⟩],
-    inventory := [0, 1], select := fun a => a + 10, workers := 2, locked := true }
+                ⟨1, false, false, ⟨.missingColumn, 8⟩⟩, ⟨9, false, false, ⟨.ok, 9⟩⟩, ⟨0, false, true, ⟨.ok, 10⟩⟩,
+                ⟨1, false, false, ⟨.refused 1, 11⟩⟩, ⟨0, false, false, ⟨.refused 0, 12⟩⟩],
+    inventory := [0, 1], select := fun a => a + 10, workers := 2, locked := true,
+    fanout := fun i => if i = 10 then 2 else 3 }
 
-example : demoCfg.locked = true ∧ hasFatal demoCfg = false ∧ 1 ≤ demoCfg.workers := by decide
+example : demoCfg.locked = true ∧ demoCfg.reset = .always ∧ hasFatal demoCfg = false ∧ 1 ≤ demoCfg.workers := by decide
 
-/-- the bound of `C16_termination` is not far off: this complete schedule of the six callers has 40 steps (≤ 78) -/
-example : (randomRun demoCfg (instsOf demoCfg) 200 1 init []).2.length = 40 := by decide +kernel
+/-- the bound of `C16_termination` is not far off: this complete schedule of the eight callers has 52 steps (≤ 104) -/
+example : (randomRun demoCfg (instsOf demoCfg) 300 1 init []).2.length = 52 := by decide +kernel
 
-/-- a complete pseudo-random schedule of `demoCfg` is a schedule (`run` accepts it), ends stuck, and all six
+/-- a complete pseudo-random schedule of `demoCfg` is a schedule (`run` accepts it), ends stuck, and all eight
 callers are answered as prescribed -/
-example : (run demoCfg init (randomRun demoCfg (instsOf demoCfg) 200 1 init []).2).map
-    (fun s => (stuck demoCfg s, s.answers.length)) = some (true, 6) := by decide +kernel
+example : (run demoCfg init (randomRun demoCfg (instsOf demoCfg) 300 1 init []).2).map
+    (fun s => (stuck demoCfg s, s.answers.length)) = some (true, 8) := by decide +kernel
 
-example : (randomRun demoCfg (instsOf demoCfg) 200 1 init []).1.answers.length = 6
-    ∧ stuck demoCfg (randomRun demoCfg (instsOf demoCfg) 200 1 init []).1 = true
-    ∧ ∀ a ∈ (randomRun demoCfg (instsOf demoCfg) 200 1 init []).1.answers, a.2 = expected demoCfg a.1 := by
+example : (randomRun demoCfg (instsOf demoCfg) 300 1 init []).1.answers.length = 8
+    ∧ stuck demoCfg (randomRun demoCfg (instsOf demoCfg) 300 1 init []).1 = true
+    ∧ ∀ a ∈ (randomRun demoCfg (instsOf demoCfg) 300 1 init []).1.answers, a.2 = expected demoCfg a.1 := by
   decide +kernel
+
+/-- what the prescribed outcomes are: the refusals carry the payload of the refused request and the refusing branch -/
+example : (List.range 8).map (expected demoCfg) =
+    [.value 10 5, .value 11 6, .error .unsupported, .error .missingFeatures, .error .missingApp, .error .unsupported,
+     .error (.invalid 11 1), .error (.invalid 12 0)] := by decide
 
 end ForML.Serving
